@@ -113,4 +113,34 @@ theorem inv_runWith {σ ι ο} (step : σ → ι → σ × ο) (inv : σ → Pro
     simp only [runWith]
     exact inv_runWith step inv hinv is _ (hinv s i h)
 
+/-! ### several callers of an exclusive method -/
+
+theorem winner_attempts {order : List Nat} {att : List Bool} {k : Nat} (h : winner order att = some k) :
+    att.getD k false = true := by
+  unfold winner at h
+  exact List.find?_some (p := fun k => att.getD k false) h
+
+theorem onlyTo_getElem? {α} {n : Nat} {g : Option Nat} {res : Option α} {k : Nat} {v : α}
+    (h : (onlyTo n g res)[k]? = some (some v)) : g = some k ∧ res = some v := by
+  unfold onlyTo at h
+  rw [List.getElem?_map] at h
+  by_cases hk : k < n
+  · simp [hk] at h
+    exact h
+  · have : (List.range n)[k]? = none := by simp; omega
+    simp [this] at h
+
+/-- an exclusive method called by several transactions: at most one caller executes per cycle,
+    it is a caller that attempted, and it sees exactly the single-port outcome `res` -/
+theorem callers_exclusive {α} {order : List Nat} {att : List Bool} {n : Nat} {res : Option α}
+    {k1 k2 : Nat} {v1 v2 : α}
+    (h1 : (onlyTo n (winner order att) res)[k1]? = some (some v1))
+    (h2 : (onlyTo n (winner order att) res)[k2]? = some (some v2)) :
+    k1 = k2 ∧ res = some v1 ∧ att.getD k1 false = true := by
+  obtain ⟨g1, r1⟩ := onlyTo_getElem? h1
+  obtain ⟨g2, _⟩ := onlyTo_getElem? h2
+  refine ⟨?_, r1, winner_attempts g1⟩
+  rw [g1] at g2
+  exact Option.some.inj g2
+
 end TxV.QueueUtil
